@@ -751,7 +751,7 @@ func main() {
 		if i > 0 {
 			w(";\n")
 		}
-		w("  {| ac_func := %s; ac_recv := %s; ac_field := %s; ac_write := %v; ac_locked := %v; ac_in_go := %v; ac_kind := %s |}", coqStr(a.Func), coqStr(a.Recv), coqStr(a.Field), a.Write, a.Locked, a.InGo, coqStr(a.Kind))
+		w("  {| ac_func := %s; ac_recv := %s; ac_field := %s; ac_write := %v; ac_locked := %v; ac_in_go := %v; ac_in_loop := %v; ac_kind := %s |}", coqStr(a.Func), coqStr(a.Recv), coqStr(a.Field), a.Write, a.Locked, a.InGo, a.InLoop, coqStr(a.Kind))
 	}
 	w("\n].\n")
 	if err := writeIfChanged(outV, b.String()); err != nil {
@@ -907,8 +907,8 @@ func collectLocals(fd *ast.FuncDecl, locals map[string]bool) {
 }
 
 type access struct {
-	Func, Recv, Field, Kind string
-	Write, Locked, InGo     bool
+	Func, Recv, Field, Kind       string
+	Write, Locked, InGo, InLoop bool
 }
 
 // collectAccesses walks every method of Server and Client and records each
@@ -930,6 +930,7 @@ func collectAccesses(files []*ast.File, names []string) []access {
 			}
 			recvN := fd.Recv.List[0].Names[0].Name
 			locked := false
+			inLoop := false
 			var walk func(n ast.Node, inGo bool)
 			isMu := func(call *ast.CallExpr, meth string) bool {
 				se, ok := call.Fun.(*ast.SelectorExpr)
@@ -939,7 +940,7 @@ func collectAccesses(files []*ast.File, names []string) []access {
 				return exprString(se.X) == recvN+".mu"
 			}
 			record := func(se *ast.SelectorExpr, write bool, kind string, inGo bool) {
-				out = append(out, access{Func: fd.Name.Name, Recv: recvT, Field: se.Sel.Name, Write: write, Locked: locked, InGo: inGo, Kind: kind})
+				out = append(out, access{Func: fd.Name.Name, Recv: recvT, Field: se.Sel.Name, Write: write, Locked: locked, InGo: inGo, InLoop: inLoop, Kind: kind})
 			}
 			var visitExpr func(e ast.Node, inGo bool)
 			visitExpr = func(e ast.Node, inGo bool) {
@@ -1045,10 +1046,16 @@ func collectAccesses(files []*ast.File, names []string) []access {
 						visitExpr(s.Cond, inGo)
 					}
 					walk(s.Post, inGo)
+					savedLoop := inLoop
+					inLoop = true
 					walk(s.Body, inGo)
+					inLoop = savedLoop
 				case *ast.RangeStmt:
 					visitExpr(s.X, inGo)
+					savedLoop := inLoop
+					inLoop = true
 					walk(s.Body, inGo)
+					inLoop = savedLoop
 				case *ast.SwitchStmt:
 					walk(s.Init, inGo)
 					if s.Tag != nil {
